@@ -641,14 +641,23 @@ Proof.
   split; [exact W1|]. split; [exact Oq|]. split; [exact S1|]. split; [reflexivity | exact Cv].
 Qed.
 
+(* the literal 200 is abstracted at once: no proof step may evaluate the loop *)
+Lemma eigenvalues_fuel (M : list (list R)) evs : eigenvalues ROps M = Ok evs ->
+  exists fuel, (0 < nrows M)%nat /\ eig_loop ROps fuel 0%Z M = Ok evs.
+Proof.
+  unfold eigenvalues. generalize 200%nat. intros fuel.
+  destruct (is_square M); cbn [andb]; [| discriminate].
+  destruct (Nat.ltb_spec 0 (nrows M)) as [Hn | Hn]; [| discriminate].
+  intros E. exists fuel. split; [exact Hn | exact E].
+Qed.
 Lemma eigenvalues_similar n (M : list (list R)) evs : wf n M -> nonsing n (ment ROps M) -> eigenvalues ROps M = Ok evs ->
   exists (A : list (list R)) (q : nat -> nat -> R),
     wf n A /\ orth n q /\ eqn n (ment ROps A) (mm n (tr q) (mm n (ment ROps M) q)) /\
     evs = diagonal ROps A /\ eig_converged A.
 Proof.
-  intros W NS E. destruct (wf_is_square n M W) as [Sq Nr]. unfold eigenvalues in E. rewrite Sq, Nr in E.
-  destruct (Nat.ltb_spec 0 n) as [Hn | Hn]; [| discriminate E]. cbn [andb] in E.
-  exact (eig_loop_similar n Hn 200 0%Z M evs W NS E).
+  intros W NS E. destruct (wf_is_square n M W) as [Sq Nr].
+  destruct (eigenvalues_fuel M evs E) as (fuel & Hn & E'). rewrite Nr in Hn.
+  exact (eig_loop_similar n Hn fuel 0%Z M evs W NS E').
 Qed.
 
 (** "sums to the trace": the returned values sum to trace(M), exactly over the reals; there are n of them; for a symmetric
@@ -690,3 +699,56 @@ Proof.
     intros [| [| j]] Hj; [lra | lra | lia].
   - intros [| [| i]] [| [| j]] Hi Hj; try lia; reflexivity.
 Qed.
+
+(** ** Non-vacuity of "Eigenvalues returns": a 1 x 1 matrix (a), a <> 0, is returned unchanged after 12 sweeps *)
+Lemma wf1_eq (A : list (list R)) : wf 1 A -> A = [[ment ROps A 0 0]].
+Proof.
+  intros [L Rw]. pose proof (Rw 0%nat ltac:(lia)) as R0. unfold ment, nth0.
+  destruct A as [| r0 [| r1 A]]; cbn in L; try lia. cbn in R0 |- *.
+  destruct r0 as [| x [| y r0]]; cbn in R0; try lia. reflexivity.
+Qed.
+Lemma wf1_single a : wf 1 [[a]].
+Proof. split; [reflexivity|]. intros [| i] Hi; [reflexivity | lia]. Qed.
+Lemma nonsing1_single a : a <> 0 -> nonsing 1 (ment ROps [[a]]).
+Proof.
+  intros Ha x H [| j] Hj; [| lia]. pose proof (H 0%nat ltac:(lia)) as H0. unfold mv, ment, nth0 in H0. cbn in H0.
+  assert (a * x 0%nat = 0) as E by lra. destruct (Rmult_integral _ _ E); [contradiction | assumption].
+Qed.
+Lemma eig_sweep_1x1 a : a <> 0 ->
+  let qr := qr_loop ROps 1 0 1 (identity ROps 1) [[a]] [[a]] in mmul ROps (snd qr) (fst qr) = [[a]].
+Proof.
+  intros Ha qr.
+  pose proof (qr_loop_post 1 [[a]] ltac:(lia) (wf1_single a)
+                (nonsing_qr_pivots 1 [[a]] ltac:(lia) (wf1_single a) (nonsing1_single a Ha))) as (Wq & Wr & Oq & QR & _).
+  fold qr in Wq, Wr, Oq, QR.
+  assert (wf 1 (mmul ROps (snd qr) (fst qr))) as W1 by (apply wf_mmul; [lia | assumption | assumption]).
+  clearbody qr. rewrite (wf1_eq _ W1). do 2 f_equal.
+  pose proof (eqn_trans 1 _ _ _ (ment_mmul_eqn 1 _ _ ltac:(lia) Wr Wq) (sim_of_qr 1 _ _ _ Oq QR) 0%nat 0%nat ltac:(lia) ltac:(lia)) as E.
+  rewrite E. destruct Oq as [O1 _]. pose proof (O1 0%nat 0%nat ltac:(lia) ltac:(lia)) as U.
+  unfold mm, tr in U |- *. cbn [rsum] in U |- *. unfold dlt in U. cbn [Nat.eqb] in U.
+  change (ment ROps [[a]] 0 0) with a. set (q00 := ment ROps (fst qr) 0 0) in *.
+  replace (0 + q00 * (0 + a * q00)) with (a * (0 + q00 * q00)) by ring. rewrite U. ring.
+Qed.
+Lemma eig_loop_1x1 a : a <> 0 -> forall fuel i, (0 < fuel)%nat -> (12 <= Z.of_nat fuel + i)%Z ->
+  eig_loop ROps fuel i [[a]] = Ok [a].
+Proof.
+  intros Ha. induction fuel as [| f IH]; intros i Hi Hf; [lia|].
+  cbn [eig_loop]. cbv zeta. change (nrows [[a]]) with 1%nat. rewrite (eig_sweep_1x1 a Ha).
+  destruct (Z.ltb_spec 10 i) as [L | L].
+  - assert (nltb ROps (ndiv ROps (abs_lower_sum ROps [[a]]) (abs_diag_sum ROps [[a]])) (ndec ROps 1 1000000000000) = true) as C.
+    { unfold abs_lower_sum, abs_diag_sum, ndec, ment, nth0. cbn. apply Rltb_true.
+      assert (0 < Rabs a) by (apply Rabs_pos_lt; exact Ha).
+      replace (0 / (0 + Rabs a)) with 0 by (field; lra). lra. }
+    rewrite C. reflexivity.
+  - apply IH; lia.
+Qed.
+Lemma eigenvalues_unfold (M : list (list R)) :
+  eigenvalues ROps M = if (is_square M && Nat.ltb 0 (nrows M))%bool then eig_loop ROps 200 0%Z M else Exit.
+Proof. reflexivity. Qed.
+Example eigenvalues_1x1 a : a <> 0 -> eigenvalues ROps [[a]] = Ok [a].
+Proof.
+  intros Ha. rewrite eigenvalues_unfold. replace (is_square [[a]] && Nat.ltb 0 (nrows [[a]]))%bool with true by reflexivity.
+  apply (eig_loop_1x1 a Ha 200 0%Z); lia.
+Qed.
+Lemma two_neq_0 : 2 <> 0.
+Proof. lra. Qed.
